@@ -96,6 +96,9 @@ MUTANTS += [
 ]
 
 MUTANTS += [
+    dict(prop='C02', name='trigger-door-unguarded', edits=[(EVENTS,
+         "    def trigger(self, event: 'Event') -> None:\n        if self._value is not PENDING:\n            raise RuntimeError(f'{self} has already been triggered')\n",
+         "    def trigger(self, event: 'Event') -> None:\n")]),
     # ---- C05
     dict(prop='C05', name='all-events-off-by-one', edits=[(EVENTS,
          "        return len(events) == count", "        return len(events) <= count + (len(events) > 3)")]),
